@@ -67,7 +67,7 @@ def in_hours(hours: dict[int, list[tuple[int, int]]], wd: int, minute: int) -> b
 def ref_calendar(spec: Spec, size: int, g: int) -> dict[str, list[bool]]:
     from .oracle import rid
 
-    vac = [_date_interval(v) for v in spec.vacations]
+    vac = [_date_interval(v) for v in spec.vacations] + [_date_interval(v) for v in spec.global_leaves]
     out = {}
     for r in spec.resources:
         if any(x.parent == r.id for x in spec.resources):
@@ -75,6 +75,12 @@ def ref_calendar(spec: Spec, size: int, g: int) -> dict[str, list[bool]]:
         lines = r.hours or (spec.shifts.get(r.shift) if r.shift else None)
         hours = parse_hours(lines) if lines else None
         away = [_date_interval(re.sub(r"^\w+\s+", "", ln)) for ln in r.leaves] + [_date_interval(v) for v in r.vacation]
+        for (when, dur) in r.bookings:
+            # calendar durations as in TaskJuggler: d = 24 h, w = 7 d, m = 30.4167 d, y = 365 d
+            m_ = re.match(r"(\d+(?:\.\d+)?)(min|h|d|w|m|y)$", dur)
+            assert m_, dur
+            a_ = datetime.strptime(when, "%Y-%m-%d-%H:%M")
+            away.append((a_, a_ + timedelta(seconds=float(m_.group(1)) * {"min": 60, "h": 3600, "d": 86400, "w": 604800, "m": 30.4167 * 86400, "y": 365 * 86400}[m_.group(2)])))
         tz = ZoneInfo(r.tz) if r.tz else None
         tab = []
         for i in range(size):
